@@ -68,8 +68,8 @@ class Hist(Scenario):
         ss_seen = False
         for i, op in enumerate(self.ops):
             p = ghost_pvals(m)
-            if op in ("S1", "S2", "S3"):
-                steps = int(op[1])
+            if op in ("S1", "S2", "S3", "SN"):
+                steps = None if op == "SN" else int(op[1])
                 t = ctx.real(f"t{i}")
                 try:
                     sim.simulate(t, steps=steps)
@@ -82,6 +82,8 @@ class Hist(Scenario):
                 ctx.true(f"op{i} {op}: refused exactly when end <= time reached", (t <= reached) if raised else (t > reached))
                 if raised:
                     continue
+                if steps is None:
+                    steps = 99  # the documented default: 100 points including the start
                 pts = [reached + (t - reached) * j / steps for j in range(steps)] + [t]
                 new = [(q, fm.flow(p, y_cur, reached, q, sym)) for q in pts]
                 rows += new if not started else new[1:]
@@ -199,7 +201,7 @@ def histories(tier):
     out = []
     for n in range(1, L + 1):
         for h in it.product(alphabet, repeat=n):
-            if not any(o in h for o in ("S1", "S2", "S3", "TC1", "TC2", "TC3")):
+            if not any(o in h for o in ("S1", "S2", "S3", "SN", "TC1", "TC2", "TC3")):
                 continue
             if h[-1] in ("UP", "UV") :
                 continue  # trailing edits are unobservable
@@ -235,4 +237,8 @@ def scenarios(tier, seed):
         scs.append(Hist("timedep", h))
     if tier != "quick":
         scs.append(Hist("decay", ("S3", "UV", "S3")))
+        for h in (("SN",), ("S1", "SN"), ("SN", "UV", "S1"), ("TC2", "UP", "SN")):
+            scs.append(Hist("decay", h))
+    else:
+        scs.append(Hist("decay", ("S1", "SN")))
     return scs
